@@ -59,17 +59,19 @@ type dist struct {
 	// claim-variant scenario: competing deposits at one nonce that differ only in the spelling of the free-form
 	// receiver, and deposits at the next nonce with a remote block height below / equal to / above the recorded one
 	Variants bool
+	Registry bool // token-registry scenario (registry.go)
 }
 
 var dists = []dist{
-	{"34-33-33", []int64{34, 33, 33}, false, false, false},
-	{"50-30-20", []int64{50, 30, 20}, false, false, false},
-	{"1-1-1", []int64{1, 1, 1}, false, false, false},
-	{"67-33", []int64{67, 33}, false, false, false},
-	{"25-25-25-25", []int64{25, 25, 25, 25}, false, false, false},
-	{"34-33-33/compass", []int64{34, 33, 33}, true, false, false},
-	{"34-33-33/compass-legacy", []int64{34, 33, 33}, true, true, false},
-	{"67-33/claim-variants", []int64{67, 33}, false, false, true},
+	{"34-33-33", []int64{34, 33, 33}, false, false, false, false},
+	{"50-30-20", []int64{50, 30, 20}, false, false, false, false},
+	{"1-1-1", []int64{1, 1, 1}, false, false, false, false},
+	{"67-33", []int64{67, 33}, false, false, false, false},
+	{"25-25-25-25", []int64{25, 25, 25, 25}, false, false, false, false},
+	{"34-33-33/compass", []int64{34, 33, 33}, true, false, false, false},
+	{"34-33-33/compass-legacy", []int64{34, 33, 33}, true, true, false, false},
+	{"67-33/claim-variants", []int64{67, 33}, false, false, true, false},
+	{"67-33/token-registry", []int64{67, 33}, false, false, false, true},
 }
 
 // plan: which distributions run, how many worker processes each gets, depth.
@@ -92,9 +94,9 @@ func plan() []planItem {
 		return []planItem{{i, n, d, os.Getenv("C02_UNREG") != ""}}
 	}
 	if report.Tier() == "thorough" {
-		return scale([]planItem{{0, 5, 7, false}, {5, 1, 6, false}, {6, 1, 6, false}, {7, 1, 8, false}, {1, 2, 6, true}, {2, 1, 6, true}, {3, 1, 7, true}, {4, 4, 6, false}})
+		return scale([]planItem{{0, 5, 7, false}, {5, 1, 6, false}, {6, 1, 6, false}, {7, 1, 8, false}, {8, 1, 7, false}, {1, 2, 6, true}, {2, 1, 6, true}, {3, 1, 7, true}, {4, 3, 6, false}})
 	}
-	return scale([]planItem{{0, 6, 6, false}, {5, 1, 5, false}, {6, 1, 6, false}, {7, 1, 6, false}, {1, 6, 6, false}, {2, 1, 5, false}})
+	return scale([]planItem{{0, 6, 6, false}, {5, 1, 5, false}, {6, 1, 6, false}, {7, 1, 6, false}, {8, 1, 6, false}, {1, 5, 6, false}, {2, 1, 5, false}})
 }
 
 // scale fits the plan (laid out for 16 worker processes) to report.Workers():
@@ -287,6 +289,15 @@ func run(r *report.Run, shard, nshards int, replayFile string) {
 			os.Exit(2)
 		}
 	}
+	if dists[sl.Dist].Registry {
+		describe(r)
+		var rp *report.Violation
+		if replayFile != "" {
+			rp = &rep
+		}
+		runRegistry(r, sl, path, rp)
+		return
+	}
 	e := setup(r, sl)
 	// shard late: all workers of a distribution search identically down to depth-2 (cheap: the last two levels hold
 	// ~95% of the transitions), which keeps the overlap between the workers' private visited sets small
@@ -303,20 +314,7 @@ func run(r *report.Run, shard, nshards int, replayFile string) {
 		e.keepDepth = kd
 	}
 
-	r.Rule = "BFS over Vote(v,claim) (really signed MsgSendToPalomaClaim / MsgBatchSendToRemoteClaim txs through ante + router) for competing claims cA,cB (deposits of 7 / 9, same nonce 1), cX (batch-executed, nonce 1), cC (deposit, nonce 2) [thorough, except 34-33-33 and 25-25-25-25: + cU, deposit of an unregistered token, nonce 1]; Tally (skyway.EndBlocker); CatchUp (skyway.EndBlocker at height 150 => UpdateValidatorNoncesToLatest); Power(v,p) p in {0, p0, 2*p0} (staking last-validator-power + last-total-power); Override(k) k in {last-1,last,last+1} (MsgNonceOverrideProposal by the gov authority); one search per stake distribution (quick: 34-33-33 and 50-30-20 to depth 6, 1-1-1 to depth 5; thorough: 34-33-33 and 67-33 depth 7, 50-30-20 / 1-1-1 / 25-25-25-25 depth 6); plus two bridge-deployment searches on 34-33-33 (quick depth 5 / 6, thorough 6): deposits D1 (nonce 1), D2 (nonce 2), each votable with the compass id on record, with none, and with another id (the previous deployment's, or a never deployed one), Tally, and ActivateCompass = EvmKeeper.ActivateChainReferenceID with a higher contract id and a new unique id (publishes eventbus.EVMActivatedChain: latest compass id recorded, cursor and validator nonces reset; at most 1 activation per history quick, 2 thorough), started from the standard state (compass id on record) and from a state with the chain ACTIVE and no compass id on record; plus a claim-variant search on 67-33 (quick depth 6, thorough 8): at nonce 1 the genuine deposit G (remote height 100) and three claims differing from it only in the spelling of the free-form receiver (one letter upper-cased, all upper-case, trailing blank), at nonce 2 deposits reporting remote height 90 / 100 / 110, Tally (any number of further end-blocks), Override(0); a state is distinct by (skyway store, last powers, ghost voter sets / observed set / epoch cursor / deployment id / accounted effects); stored claims are identified by their full body, never by the claim hash; oracle after every step: every vote entry of a newly Observed claim belongs to a validator that submitted exactly that body; a newly Observed claim carries the compass id of the current deployment whenever one is on record; each newly Observed claim has distinct-voter power*100 > 66*total, is the only one at its nonce in this reset epoch and sits at cursor+1; cursor moves only by observation / reset; receiver balance, supply, escrow and batch deletion equal the observed claims' effects applied exactly once; Observed never reverts; a rejected vote leaves the skyway store byte-identical"
-	r.Assumptions = []string{
-		"a validator 'has voted for a claim' once a vote transaction of it for that claim hash succeeded, in any reset epoch (weakest reading: earlier votes keep counting after a reset, but only once per validator)",
-		"every successful MsgNonceOverrideProposal starts a new reset epoch, also when it writes the value the cursor already has (weakest reading: fewer constraints)",
-		"power = staking LastValidatorPower / LastTotalPower at the moment of the tally, written through the staking keeper; validator status is not changed (a power-0 validator stays bonded and may still vote)",
-		"the explored code reads the block height only modulo 50; every step runs at height 101, CatchUp at 150",
-		"all claims carry the same remote block height; duplicate vote entries are not flagged by themselves, only an observation whose distinct voters hold <= 66%",
-		"tx atomicity re-implemented as in baseapp.runTx (ante cache, msg cache)",
-		"remote-height rule: the keeper refuses to lower the recorded remote block height; on this tree a claim that holds a quorum at cursor+1 but reports a lower height has the cursor written and is then dropped (TryAttestation returns after setLastObservedSkywayNonce; no Observed flag, no effect, the end-blocker has no cache context). Honest validators cannot report decreasing heights for increasing nonces of one deployment and 'exactly once whenever it can be applied at all' exempts claims the chain refuses, so this is accepted like 'handler failed, oracle progresses': the nonce counts as consumed, zero effect is not an alarm; it is counted (nonces_consumed_by_claims_refused_for_lower_remote_height, refused:*) and sampled. Still checked there: no effect for a refused or below-quorum claim, at most one effect per claim over any number of later end-blocks, consecutive order among the claims that take effect, cursor moves only by observation, refusal of a quorum claim, or reset",
-		"effects are accounted per claim body, once: normally when the claim becomes Observed; if receiver balance / supply show the effect of a deposit that holds a quorum of identical votes at cursor+1 before its Observed flag is set, it is accounted then (weakest reading) and any further application is an alarm",
-		"a compass activation is a reset: new epoch, cursor 0; votes cast before it keep counting for the identical claim (weakest reading), but a claim of another or no deployment must not become Observed while a deployment id is on record",
-		"'chain ACTIVE, no latest compass id on record' is not reachable from genesis on this tree (genesis chains are inactive until ActivateChainReferenceID, which publishes the recording event); it stands for a chain activated under a binary that did not record compass ids and is produced without store writes by removing the skyway eventbus subscription during the initial activation and re-subscribing (NewKeeper over the same store). UnobservedBlocksByAddr (a query for relayers) is not explored",
-		"partial-order reduction: Power(v,p) writes only staking last powers, which only the tally reads (Attest, the claim handlers and overrideNonce never read them), so power changes are explored only directly before a Tally/CatchUp, in ascending validator order, one per validator; Override directly after Override is skipped (same state as the second alone). Depth counts every step including Power",
-	}
+	describe(r)
 	spec := explore.Spec{
 		Name:       e.d.Name,
 		Init:       []*explore.Node{{Ctx: e.w.Root, Ghost: e.ghost0()}},
@@ -348,6 +346,23 @@ func run(r *report.Run, shard, nshards int, replayFile string) {
 	if sl.Sub == 0 {
 		r.Extra["depth_completed:"+e.d.Name] = float64(res.DepthCompleted)
 		r.Extra["depth_bound:"+e.d.Name] = float64(sl.Depth)
+	}
+}
+
+func describe(r *report.Run) {
+	r.Rule = "BFS over Vote(v,claim) (really signed MsgSendToPalomaClaim / MsgBatchSendToRemoteClaim txs through ante + router) for competing claims cA,cB (deposits of 7 / 9, same nonce 1), cX (batch-executed, nonce 1), cC (deposit, nonce 2) [thorough, except 34-33-33 and 25-25-25-25: + cU, deposit of an unregistered token, nonce 1]; Tally (skyway.EndBlocker); CatchUp (skyway.EndBlocker at height 150 => UpdateValidatorNoncesToLatest); Power(v,p) p in {0, p0, 2*p0} (staking last-validator-power + last-total-power); Override(k) k in {last-1,last,last+1} (MsgNonceOverrideProposal by the gov authority); one search per stake distribution (quick: 34-33-33 and 50-30-20 to depth 6, 1-1-1 to depth 5; thorough: 34-33-33 and 67-33 depth 7, 50-30-20 / 1-1-1 / 25-25-25-25 depth 6); plus two bridge-deployment searches on 34-33-33 (quick depth 5 / 6, thorough 6): deposits D1 (nonce 1), D2 (nonce 2), each votable with the compass id on record, with none, and with another id (the previous deployment's, or a never deployed one), Tally, and ActivateCompass = EvmKeeper.ActivateChainReferenceID with a higher contract id and a new unique id (publishes eventbus.EVMActivatedChain: latest compass id recorded, cursor and validator nonces reset; at most 1 activation per history quick, 2 thorough), started from the standard state (compass id on record) and from a state with the chain ACTIVE and no compass id on record; plus a claim-variant search on 67-33 (quick depth 6, thorough 8): at nonce 1 the genuine deposit G (remote height 100) and three claims differing from it only in the spelling of the free-form receiver (one letter upper-cased, all upper-case, trailing blank), at nonce 2 deposits reporting remote height 90 / 100 / 110, Tally (any number of further end-blocks), Override(0); plus a token-registry search on 67-33 (quick depth 6, thorough 7): GovMap(denom in {uold,unew}, contract in {A,B}) = MsgSetERC20MappingProposal through the router, at most 3 per history, in every order and interleaving with votes for deposits of A and of B (nonces 1, 2) and Tally; reference registry = last mapping wins per denom (forward index) and per contract (reverse index), as this tree defines it; in every state the forward index equals the reference and every contract whose binding is in force (contract -> denom and denom -> contract) resolves to its denom; an observed deposit of such a contract pays the receiver exactly once in that denom; a state is distinct by (skyway store, last powers, ghost voter sets / observed set / epoch cursor / deployment id / accounted effects); stored claims are identified by their full body, never by the claim hash; oracle after every step: every vote entry of a newly Observed claim belongs to a validator that submitted exactly that body; a newly Observed claim carries the compass id of the current deployment whenever one is on record; each newly Observed claim has distinct-voter power*100 > 66*total, is the only one at its nonce in this reset epoch and sits at cursor+1; cursor moves only by observation / reset; receiver balance, supply, escrow and batch deletion equal the observed claims' effects applied exactly once; Observed never reverts; a rejected vote leaves the skyway store byte-identical"
+	r.Assumptions = []string{
+		"a validator 'has voted for a claim' once a vote transaction of it for that claim hash succeeded, in any reset epoch (weakest reading: earlier votes keep counting after a reset, but only once per validator)",
+		"every successful MsgNonceOverrideProposal starts a new reset epoch, also when it writes the value the cursor already has (weakest reading: fewer constraints)",
+		"power = staking LastValidatorPower / LastTotalPower at the moment of the tally, written through the staking keeper; validator status is not changed (a power-0 validator stays bonded and may still vote)",
+		"the explored code reads the block height only modulo 50; every step runs at height 101, CatchUp at 150",
+		"all claims carry the same remote block height; duplicate vote entries are not flagged by themselves, only an observation whose distinct voters hold <= 66%",
+		"tx atomicity re-implemented as in baseapp.runTx (ante cache, msg cache)",
+		"remote-height rule: the keeper refuses to lower the recorded remote block height; on this tree a claim that holds a quorum at cursor+1 but reports a lower height has the cursor written and is then dropped (TryAttestation returns after setLastObservedSkywayNonce; no Observed flag, no effect, the end-blocker has no cache context). Honest validators cannot report decreasing heights for increasing nonces of one deployment and 'exactly once whenever it can be applied at all' exempts claims the chain refuses, so this is accepted like 'handler failed, oracle progresses': the nonce counts as consumed, zero effect is not an alarm; it is counted (nonces_consumed_by_claims_refused_for_lower_remote_height, refused:*) and sampled. Still checked there: no effect for a refused or below-quorum claim, at most one effect per claim over any number of later end-blocks, consecutive order among the claims that take effect, cursor moves only by observation, refusal of a quorum claim, or reset",
+		"effects are accounted per claim body, once: normally when the claim becomes Observed; if receiver balance / supply show the effect of a deposit that holds a quorum of identical votes at cursor+1 before its Observed flag is set, it is accounted then (weakest reading) and any further application is an alarm",
+		"a compass activation is a reset: new epoch, cursor 0; votes cast before it keep counting for the identical claim (weakest reading), but a claim of another or no deployment must not become Observed while a deployment id is on record",
+		"'chain ACTIVE, no latest compass id on record' is not reachable from genesis on this tree (genesis chains are inactive until ActivateChainReferenceID, which publishes the recording event); it stands for a chain activated under a binary that did not record compass ids and is produced without store writes by removing the skyway eventbus subscription during the initial activation and re-subscribing (NewKeeper over the same store). UnobservedBlocksByAddr (a query for relayers) is not explored",
+		"partial-order reduction: Power(v,p) writes only staking last powers, which only the tally reads (Attest, the claim handlers and overrideNonce never read them), so power changes are explored only directly before a Tally/CatchUp, in ascending validator order, one per validator; Override directly after Override is skipped (same state as the second alone). Depth counts every step including Power",
 	}
 }
 
